@@ -149,7 +149,8 @@ def run_random(desc):
             D = rng.choice([dt.date(2024, 1, 3), dt.date(2023, 3, 2), dt.date(2024, 3, 4), dt.date(2025, 1, 1), dt.date(2022, 12, 31)])
         sym = rng.choice(["XYZZ", "Acme", "bar", "Q1"])
         label = rng.choice(["several_entries", "none", "no_awards_file", "other_symbol_only", "after_only", "old_only",
-                            "non_vesting_noise", "both_fields_in_one_entry", "vest_without_vestdate"])
+                            "non_vesting_noise", "both_fields_in_one_entry", "vest_without_vestdate",
+                            "vest_and_fallback_in_sibling_items", "vest_and_fallback_in_sibling_items"])
         ents = []
         if label == "several_entries":
             for _e in range(rng.randint(1, 5)):
@@ -178,6 +179,16 @@ def run_random(desc):
             ed = D - dt.timedelta(days=rng.randint(0, 7))
             ents.append({"Date": us(ed), "Action": "Lapse", "Symbol": sym, "TransactionDetails": [
                 {"Details": {"FairMarketValuePrice": "$9.99", "VestDate": us(ed), "VestFairMarketValue": "$10.01"}}]})
+        elif label == "vest_and_fallback_in_sibling_items":
+            # one entry whose details mix a vest-specific item with a sibling item that only has the fallback price
+            ed = D - dt.timedelta(days=rng.randint(0, 5))
+            vd = ed - dt.timedelta(days=rng.randint(0, 3))
+            items = [{"Details": {"VestDate": us(vd), "VestFairMarketValue": "$" + str(rng.randint(10, 90)) + ".25"}},
+                     {"Details": {"FairMarketValuePrice": "$" + str(rng.randint(100, 190)) + ".50"}}]
+            if rng.random() < 0.5:
+                items.reverse()
+            ents.append({"Date": us(ed), "Action": rng.choice(["Deposit", "Lapse"]), "Symbol": rng.choice([sym, sym.lower()]),
+                         "TransactionDetails": items})
         elif label == "vest_without_vestdate":
             ed = D - dt.timedelta(days=rng.randint(0, 8))
             ents.append(entry(sym, ed, "vest", "$12.34"))
